@@ -346,13 +346,21 @@ CellProg(k) ==
     [] k = "tfilter-array-of-mut-union" ->
          <<Set("cs", Hide(WArr(WAny), ArrE(<<ArrE(<<MutE(WMulti(<<WInt, WStr>>), I(1))>>), ArrE(<<MutE(WInt, I(2))>>), I(3)>>))),
            Set("n", MutE(WInt, I(0))), For("e", TFilterE(IterE(V("cs")), WArr(WMut(WMulti(<<WInt, WStr>>)))), Block(<<Asg("+=", V("n"), I(1))>>)), Deref(V("n"))>>
+FnII == WFn(<<WInt>>, WInt)
+FnCellProg ==
+  <<Set("inc1", FnE(<<P("x", WInt)>>, WInt, <<Ret(Bin("+", V("x"), I(1)))>>)),
+    Set("cs", Hide(WArr(WAny), ArrE(<<MutE(FnII, V("inc1")), MutE(WInt, I(2)), I(3), V("inc1")>>))),
+    Set("n", MutE(WInt, I(0))),
+    For("e", TFilterE(IterE(V("cs")), WMut(FnII)), Block(<<Asg("+=", V("n"), CallE(Deref(V("e")), <<I(10)>>))>>)),
+    For("e", TFilterE(IterE(V("cs")), FnII), Block(<<Asg("+=", V("n"), CallE(V("e"), <<I(100)>>))>>)),
+    Deref(V("n"))>>
 SpecialSeq == << <<"fold-over-void", 206>>, <<"fold-over-void-results", 3>>, <<"collect-void", 6>>, <<"for-over-void", 5>>, <<"filter-void", 1>>,
                  <<"tfilter-empty-array-type", 2>>, <<"tfilter-int-array-type", 3>>, <<"tfilter-any-array-type", 4>>,
                  <<"tfilter-nested-empty-array-type", 3>>,
                  <<"map-over-tuples", 14>>, <<"filter-tuples", 5>>, <<"partition-tuples", 6>>, <<"map-identity-tuples", 104>>,
-                 <<"reduce-tuples", 7>>, <<"call-with-one-tuple", 9>>, <<"tfilter-mut-union", 2>>, <<"tfilter-array-of-mut-union", 1>> >>
+                 <<"reduce-tuples", 7>>, <<"call-with-one-tuple", 9>>, <<"tfilter-mut-union", 2>>, <<"tfilter-array-of-mut-union", 1>>, <<"tfilter-mut-function", 112>> >>
 TupleKinds == {"map-over-tuples", "filter-tuples", "partition-tuples", "map-identity-tuples", "reduce-tuples", "call-with-one-tuple"}
-SpecialProgOf(k) == IF k \in TupleKinds THEN TupleProg(k) ELSE IF k \in {"tfilter-mut-union", "tfilter-array-of-mut-union"} THEN CellProg(k) ELSE SpecialProg(k)
+SpecialProgOf(k) == IF k \in TupleKinds THEN TupleProg(k) ELSE IF k \in {"tfilter-mut-union", "tfilter-array-of-mut-union"} THEN CellProg(k) ELSE IF k = "tfilter-mut-function" THEN FnCellProg ELSE SpecialProg(k)
 SpecialOut(i) == Outcome(Run(SpecialProgOf(SpecialSeq[i][1]), Fuel))
 SpecialLaw == \A i \in 1..Len(SpecialSeq) :
   \/ (SpecialOut(i).status = "value" /\ SpecialOut(i).v = IntV(SpecialSeq[i][2]))
